@@ -5,5 +5,6 @@ CONSTANTS
   Quarters = {0, 1, 2, 4}
   Kinds = {"Scan", "Scanner", "MapScan", "SliceMap"}
   ManualQuarters = {1}
+  Plans <- PlansSingle
 INVARIANTS TypeOK RowsExactlyOnceInOrder RequestChain RequestsIdentical EndsAsDemanded FinalMatchesExpectation OnceOnly
 CHECK_DEADLOCK FALSE
